@@ -77,10 +77,14 @@ def expected_stream(frames):
         if fr.get("partial_header") and "op" not in fr:
             return out, b"", "trunc", False
         op, fin = fr["op"], fr["fin"]
+        if 3 <= op <= 7 or op >= 0x0b:
+            return out, b"", "proto", False                  # reserved opcode (RFC 6455 5.2)
         if op & 8 and not fin:
             return out, b"", "proto", False                  # fragmented control frame
         if not (op & 8) and op == 0 and cont is None:
             return out, b"", "proto", False                  # continuation without start
+        if op & 8 and fr["form"] >= 1:
+            return out, b"", "proto", False                  # control frame > 125 bytes (RFC 6455 5.5)
         if not fr["masked"]:
             return out, b"", "proto", False
         if fr.get("partial_header"):
@@ -319,11 +323,18 @@ def strict_cases(rng, n):
         if rng.random() < 0.6:
             pre = mk_message(rng, False, rng.choice([0, 1, 5, 130, 2100]), rng.choice([1, 2]), 0.2)
         kind = rng.choice(["unmasked", "nonmin16", "nonmin64", "nonmin64b", "fragctl", "contnostart", "close",
-                           "closereason", "closemid", "unmasked-ext"])
+                           "closereason", "closemid", "unmasked-ext", "reserved", "bigctl", "bigctl"])
         if kind == "unmasked":
             bad = mk_frame(rng.choice([1, 2, 9]), rnd_bytes(rng, rng.choice([0, 5, 100])), masked=False)
         elif kind == "unmasked-ext":
             bad = mk_frame(2, rnd_bytes(rng, 300), masked=False)
+        elif kind == "reserved":
+            bad = mk_frame(rng.choice([3, 4, 5, 6, 7, 11, 12, 13, 14, 15]), rnd_bytes(rng, rng.choice([0, 3, 10, 200, 2100, 3000])),
+                           fin=rng.choice([0, 1]), mask=rnd_mask(rng))
+        elif kind == "bigctl":
+            n = rng.choice([126, 127, 300, 2040, 2047, 2048, 2049, 2100, 3000, 65536])
+            bad = mk_frame(rng.choice([8, 9, 10]), rnd_bytes(rng, n), mask=rnd_mask(rng),
+                           form=2 if (n >= 65536 or rng.random() < 0.2) else 1)
         elif kind == "nonmin16":
             bad = mk_frame(2, rnd_bytes(rng, rng.choice([0, 1, 125])), form=1, mask=rnd_mask(rng))
         elif kind == "nonmin64":
@@ -365,20 +376,15 @@ def fault_cases(rng, n):
 
 
 def misc_cases(rng, n):
-    """inputs on which the property's words say nothing precise (reserved opcodes, RSV bits,
-    over-long control frames, invalid base64, random bytes): exact model comparison + memory
+    """inputs on which the property's words say nothing precise (RSV bits, invalid base64, text
+    fragmented inside a base64 quantum, absurd 64-bit lengths, random bytes): exact model comparison + memory
     safety of every read request only"""
     cases = []
     for _ in range(n):
         r = rng.random()
-        if r < 0.2:
-            wire = mk_frame(rng.choice([3, 4, 5, 6, 7, 11, 12, 15]), rnd_bytes(rng, rng.choice([0, 3, 10, 200])),
-                            fin=rng.choice([0, 1]), mask=rnd_mask(rng)) + mk_frame(2, b"tail", mask=rnd_mask(rng))
-        elif r < 0.35:
-            wire = mk_frame(2, rnd_bytes(rng, 10), rsv=rng.randrange(1, 8), mask=rnd_mask(rng))
-        elif r < 0.5:
-            wire = mk_frame(rng.choice([9, 10]), rnd_bytes(rng, rng.choice([126, 300, 2040, 2047, 2048, 2049, 2100, 3000])),
-                            mask=rnd_mask(rng)) + mk_frame(2, b"tail", mask=rnd_mask(rng))
+        if r < 0.35:
+            wire = mk_frame(rng.choice([1, 2, 9]), rnd_bytes(rng, rng.choice([0, 4, 10])), rsv=rng.randrange(1, 8), mask=rnd_mask(rng)) \
+                + mk_frame(2, b"tail", mask=rnd_mask(rng))
         elif r < 0.7:
             p = bytearray(base64.b64encode(rnd_bytes(rng, rng.choice([3, 30, 300, 3000]))))
             for _k in range(rng.randrange(1, 4)):
@@ -1019,7 +1025,7 @@ def run(ctx):
                     "timing is outside the decoder model: a lone control/empty frame followed by silence lets rfbReadExact time out (finding ws-lone-control-frame-timeout, probed end to end)"],
         "assumptions": ["read callback returns a non-empty prefix of the pending bytes, EAGAIN, 0 or a hard error",
                         "the caller passes len > 0 and a buffer of at least len bytes",
-                        "fixes/C09-ws-header-split.diff is applied (the model follows the fixed decoder)",
+                        "fixes/C09-ws-header-split.diff and fixes/C09-control-frame-limits.diff are applied (the model follows the fixed decoder)",
                         "valid client frames: control frames <= 125 bytes (RFC 6455 5.5), text frames carry the base64 encoding of their data"],
         "trusted_extra": ["independent RFC 6455 framer/parser + Python base64/hashlib as direct oracle"],
     }
